@@ -4,6 +4,7 @@ import (
 	"encoding/json"
 	"fmt"
 	"sort"
+	"sync"
 
 	"github.com/lidofinance/dc4bc/client/types"
 	"github.com/lidofinance/dc4bc/fsm/fsm"
@@ -255,6 +256,7 @@ func checkC19(c *Ctx) {
 				if _, err := ex.Node.FSM.GetFSMList(); err != nil {
 					c.Violate("C19/round-listing-fails:"+s.Name, fmt.Sprintf("GetFSMList fails on a store containing a round in %s: %v", s.Name, err), wit)
 				}
+				judgeServedDump(c, ex.Node, ex.Round, bz, s.Name, wit)
 			},
 			onTransition: func(ex *explorer, s *exState, ev *exEvent, res *exResult, mon monC05) (monC05, bool) {
 				return mon, res.Accepted
@@ -278,4 +280,45 @@ func canonDump(d string) string {
 	}
 	bz, _ := json.Marshal(x)
 	return string(bz)
+}
+
+var apiCache sync.Map // *world.Node -> *world.HTTPOp
+
+func apiFor(n *world.Node) *world.HTTPOp {
+	if v, ok := apiCache.Load(n); ok {
+		return v.(*world.HTTPOp)
+	}
+	a, err := world.NewHTTPOp(n)
+	if err != nil {
+		return nil
+	}
+	apiCache.Store(n, a)
+	return a
+}
+
+// judgeServedDump: what GET /getFSMDump and /getFSMList serve for a persisted round is the persisted
+// round (operators and tools read rounds there, e.g. show_fsm_status).
+func judgeServedDump(c *Ctx, n *world.Node, round string, stored []byte, state string, wit map[string]interface{}) {
+	api := apiFor(n)
+	if api == nil || len(round) < 32 {
+		return
+	}
+	served, err := api.FSMDump(round)
+	c.Add("dumps_read_through_the_rest_api", 1)
+	if err != nil {
+		c.Violate("C19/persisted-round-not-served:"+state, fmt.Sprintf("GET /getFSMDump for a round persisted in %s: %v", state, err), wit)
+		return
+	}
+	if canonDump(string(served)) != canonDump(string(stored)) {
+		c.Violate("C19/served-round-differs-from-persisted:"+state, oracle.FirstDiff(canonDump(string(stored)), canonDump(string(served))), wit)
+	}
+	lst, err := api.FSMList()
+	if err != nil {
+		c.Violate("C19/round-listing-fails:"+state, fmt.Sprintf("GET /getFSMList: %v", err), wit)
+		return
+	}
+	var m map[string]string
+	if json.Unmarshal(lst, &m) != nil || m[round] != state {
+		c.Violate("C19/round-listing-differs-from-persisted:"+state, fmt.Sprintf("GET /getFSMList says %q for the round, persisted state is %q", m[round], state), wit)
+	}
 }
